@@ -19,9 +19,9 @@ type c07Query struct {
 	V2        bool   `json:"v2"`
 	Prefix    string `json:"prefix,omitempty"`
 	Delim     string `json:"delim,omitempty"`
-	MaxKeys   int    `json:"max_keys"` // -1 = absent
-	Marker    string `json:"marker,omitempty"` // marker (V1) / start-after (V2)
-	Walk      bool   `json:"walk,omitempty"`   // follow continuation markers to the end
+	MaxKeys   int    `json:"max_keys"`             // -1 = absent
+	Marker    string `json:"marker,omitempty"`     // marker (V1) / start-after (V2)
+	Walk      bool   `json:"walk,omitempty"`       // follow continuation markers to the end
 	OwnPrefix bool   `json:"own_prefix,omitempty"` // probe: prefix equal to the key of a leaf directory object
 }
 
